@@ -107,6 +107,50 @@ func c20CheckType(c c20Type) engine.Result {
 				}
 			}
 		}
+		// the classification depends on the stream_type alone: the same code next to a descriptor of every
+		// tag (directly constructed and decoded from a PMT)
+		for tag := 0; tag < 256; tag++ {
+			body := c20TagBody(tag)
+			es := psi.NewPmtElementaryStream(code, 0x101, []psi.PmtDescriptor{psi.NewPmtDescriptor(uint8(tag), body)})
+			c20CheckPredicates(&res, "NewPmtElementaryStream-with-descriptor", code, es)
+			sec := ref.PMTSection{Program: 1, Version: 1, CurrentNext: true, PCRPID: 0x100,
+				Streams: []ref.Stream{{Type: 0x1B, PID: 0x100}, {Type: code, PID: 0x101, Descs: []ref.Desc{{Tag: byte(tag), Body: body}}}}}
+			pmt, err := psi.NewPMT(append(ref.Pointer(0), sec.Bytes()...))
+			if err != nil || len(pmt.ElementaryStreams()) != 2 {
+				res.Failf("NewPMT|with-descriptor", "type %#x with a descriptor of tag %#x: err=%v", code, tag, err)
+				continue
+			}
+			c20CheckPredicates(&res, "NewPMT-with-descriptor", code, pmt.ElementaryStreams()[1])
+			if got := pmt.IsPidForStreamWherePresentationLagsEbp(0x101); got != c20Lags[code] {
+				res.Failf("PMT|IsPidForStreamWherePresentationLagsEbp-with-descriptor", "type %#x with a descriptor of tag %#x: got %v", code, tag, got)
+			}
+			if len(res.Fail) > 6 {
+				return
+			}
+		}
+		// a payload that holds another program map section in front of the table (the last one is the
+		// table, as in C06): the PMT-level query must answer for the table, for PIDs of either section
+		{
+			decoyType := byte(0x0F)
+			if c20Lags[code] {
+				decoyType = 0x1B
+			}
+			decoy := ref.PMTSection{Program: 1, Version: 0, CurrentNext: true, PCRPID: 0x100,
+				Streams: []ref.Stream{{Type: decoyType, PID: 0x100}, {Type: 0x81, PID: 0x103}, {Type: code, PID: 0x104}}}
+			sec := ref.PMTSection{Program: 1, Version: 1, CurrentNext: true, PCRPID: 0x100,
+				Streams: []ref.Stream{{Type: code, PID: 0x100}, {Type: 0x1B, PID: 0x101}, {Type: 0x0F, PID: 0x102}}}
+			pmt, err := psi.NewPMT(append(append(ref.Pointer(0), decoy.Bytes()...), sec.Bytes()...))
+			if err != nil || len(pmt.ElementaryStreams()) != 3 {
+				res.Failf("NewPMT|two-sections", "type %#x: err=%v", code, err)
+			} else {
+				c20CheckPredicates(&res, "NewPMT-two-sections", code, pmt.ElementaryStreams()[0])
+				for pid, want := range map[int]bool{0x100: c20Lags[code], 0x101: false, 0x102: true, 0x103: false, 0x104: false} {
+					if got := pmt.IsPidForStreamWherePresentationLagsEbp(pid); got != want {
+						res.Failf("PMT|IsPidForStreamWherePresentationLagsEbp-two-sections", "table {%#x,0x1b,0x0f} behind a section {%#x,0x81,%#x on other PIDs}: pid %#x reports %v want %v", code, decoyType, code, pid, got, want)
+					}
+				}
+			}
+		}
 		// a stream that follows one with 300 bytes of descriptors (ES_info_length >= 256)
 		{
 			var big []ref.Desc
@@ -136,6 +180,23 @@ func c20CheckType(c c20Type) engine.Result {
 	st := psi.LookupPmtStreamType(code)
 	res.Outcome(st.IsAudioContent(), st.IsVideoContent(), st.IsSCTE35Content(), st.IsID3Content(), st.IsPrivateContent(), st.IsStreamWherePresentationLagsEbp(), st.StreamTypeDescription())
 	return res
+}
+
+// c20TagBody is a well-formed body for the tags with a defined decoder, three opaque bytes otherwise.
+func c20TagBody(tag int) []byte {
+	switch tag {
+	case 0x0E:
+		return []byte{0xC1, 0x86, 0xA0}
+	case 0x0A:
+		return []byte{'e', 'n', 'g', 0x01}
+	case 0x7F:
+		return []byte{0x20, 'd', 'e', 'u', 0x40}
+	case 0x05:
+		return []byte("DOVI")
+	case 0xB0:
+		return []byte{0x01, 0x00, 0x10, 0x49, 0x10}
+	}
+	return []byte{0x01, 0x02, 0x03}
 }
 
 // descriptor families ------------------------------------------------------------------------
@@ -451,7 +512,7 @@ func init() {
 		Scenarios: []engine.ScenarioRunner{
 			&engine.Enum[c20Type]{
 				Name: "stream-types",
-				Rule: "all 256 stream_type codes through LookupPmtStreamType, NewPmtElementaryStream and a decoded 3-stream PMT (code at each position; the PMT-level query also after query/remove/query histories on one object, and behind a stream carrying 300 bytes of descriptors); every code is a distinct non-trivial case",
+				Rule: "all 256 stream_type codes through LookupPmtStreamType, NewPmtElementaryStream and a decoded 3-stream PMT (code at each position; the PMT-level query also after query/remove/query histories on one object, behind a stream carrying 300 bytes of descriptors, and for a table that follows another program map section in the same payload), and each code next to a descriptor of every one of the 256 tags (constructed and decoded); every code is a distinct non-trivial case",
 				Gen: func(r *engine.Run, emit func(c20Type)) {
 					for c := 0; c < 256; c++ {
 						emit(c20Type{c})
